@@ -74,7 +74,26 @@ func init() {
 		document.VerifResetGlobals()
 		var a c11Args
 		json.Unmarshal(args, &a)
-		return &c11Inst{doc: document.New(), defs: map[string]c11Def{}, narrow: a.Narrow}
+		inst := &c11Inst{doc: document.New(), defs: map[string]c11Def{}, narrow: a.Narrow}
+		if a.Family {
+			// third search: the histories start in the state after a template with three header/footer
+			// definitions (three relationships) has been rendered; the history continues on the rendered document
+			for _, n := range []string{"AddHeader(default,A)", "AddFooter(default,A)", "AddFooter(first,B)", "render-as-template"} {
+				found := false
+				for k, o := range c11Ops {
+					if o.name == n {
+						if out, v := inst.Apply(k); out != "ok" || len(v) > 0 {
+							panic(fmt.Sprintf("harness: family prefix %s: %s %v", n, out, v))
+						}
+						found = true
+					}
+				}
+				if !found {
+					panic("harness: family prefix names an unknown operation " + n)
+				}
+			}
+		}
+		return inst
 	}})
 	register("C11", "model_checking", runC11)
 }
@@ -83,6 +102,7 @@ func init() {
 // kinds, a page-number footer, picture, reopen) explored deeper than the full alphabet.
 type c11Args struct {
 	Narrow bool `json:"narrow"`
+	Family bool `json:"family"`
 }
 
 var c11NarrowOps = map[string]bool{
@@ -506,4 +526,9 @@ func runC11(r *rep.Run) {
 	r.Bounds["narrow_depth"] = narrow
 	r.Bounds["narrow_alphabet"] = "AddHeader(default,A|B), AddHeader(even,A), AddFooter(default,A), AddFooter(first,B), AddFooterWithPageNumber(default,C), AddImageFromData, reopen"
 	r.Merge(seqx.Search("C11", seqx.Opts{Depth: narrow, Deadline: r.Deadline, Args: c11Args{Narrow: true}}))
+	// third search: from the state after rendering a template that has three definitions, the full alphabet
+	// (incl. calls on the template base and on a sibling render) to depth 2 (quick) / 3 (thorough)
+	fam := depth - 1
+	r.Bounds["family_depth_after_render_of_a_three_definition_template"] = fam
+	r.Merge(seqx.Search("C11", seqx.Opts{Depth: fam, Deadline: r.Deadline, Args: c11Args{Family: true}}))
 }
